@@ -220,7 +220,7 @@ def cases(rng, tier):
                 yield mk_obj(kind, b, b, {"valid": False, "tag": "fixed", "rel": "malformed", "tpl": "-"})
         for b in FIXED_BAD:
             yield mk_classify(b, {"tag": "fixed"})
-    n = {"quick": 5000, "thorough": 150000, "search": 3000}[tier]
+    n = {"quick": 5000, "thorough": 400000, "search": 3000}[tier]
     for i in range(n):
         c = _one_obj(rng, 0.35)
         yield c
@@ -329,7 +329,10 @@ def impl(case):
     else:
         out.append("T" if obj == other else "F")
         out.append("T" if obj != other else "F")
-        out.append("T" if obj == raw(case["s2"]) else "F")
+        try:
+            out.append("T" if obj == raw(case["s2"]) else "F")
+        except ValueError:      # only if the class accepted a text that macaddress itself rejects
+            out.append("err:ValueError")
     return "|".join(out)
 
 
